@@ -1,10 +1,48 @@
 (* Proofs about Model/Threshold.v, part 2: unbounded sizes relative to the standard model of rounding *)
-From Coq Require Import ZArith Reals Lra Psatz.
+From Coq Require Import ZArith Reals Lia Lra Psatz.
 (* ---------- (2) unbounded sizes, relative to the standard model of rounding ---------- *)
 Open Scope R_scope.
 
 Lemma Rabs_le_both a b : Rabs a <= b -> - b <= a <= b.
 Proof. intro H. unfold Rabs in H. destruct (Rcase_abs a); lra. Qed.
+
+(* the inequality behind both unbounded theorems: with relative errors e1 (division) and e2 (multiplication)
+   of magnitude at most u, the computed percentage stays above t whenever the exact ratio exceeds it *)
+Lemma refuse_sound_core (u : R) (d n t : Z) (e1 e2 : R) :
+  0 <= u -> Rabs e1 <= u -> Rabs e2 <= u ->
+  (0 < n)%Z -> (0 <= t)%Z -> (t * n < 100 * d)%Z ->
+  2 * u * (IZR t * IZR n + 1) < 1 ->
+  IZR t < IZR d / IZR n * (1 + e1) * 100 * (1 + e2).
+Proof.
+  intros u_pos He1 He2 Hn Ht Hex Hsmall.
+  assert (Hn' : 0 < IZR n) by (apply IZR_lt; assumption).
+  assert (Ht' : 0 <= IZR t) by (apply IZR_le; assumption).
+  assert (Hex' : IZR t * IZR n + 1 <= 100 * IZR d).
+  { rewrite <- mult_IZR, <- plus_IZR. change 100 with (IZR 100). rewrite <- mult_IZR. apply IZR_le. lia. }
+  apply Rabs_le_both in He1. apply Rabs_le_both in He2.
+  set (q := IZR d / IZR n).
+  assert (Hq : IZR t + / IZR n <= 100 * q).
+  { unfold q. apply Rmult_le_reg_r with (IZR n); [assumption|]. field_simplify; [|lra|lra]. lra. }
+  assert (Hinv : 0 < / IZR n) by (apply Rinv_0_lt_compat; assumption).
+  assert (Hu1 : u < 1).
+  { assert (0 <= IZR t * IZR n) by (apply Rmult_le_pos; lra). nra. }
+  assert (H1 : 1 - u <= 1 + e1) by lra. assert (H2 : 1 - u <= 1 + e2) by lra.
+  assert (Hprod : (1 - u) * (1 - u) <= (1 + e1) * (1 + e2)) by (apply Rmult_le_compat; lra).
+  assert (Hq0 : 0 < 100 * q) by lra.
+  assert (Hlow : 100 * q * ((1 - u) * (1 - u)) <= q * (1 + e1) * 100 * (1 + e2)) by nra.
+  assert (Hkey : IZR t < (IZR t + / IZR n) * (1 - 2 * u)).
+  { assert (Hn1 : IZR n * / IZR n = 1) by (apply Rinv_r; lra).
+    assert (2 * u * (IZR t + / IZR n) < / IZR n).
+    { apply Rmult_lt_reg_r with (IZR n); [assumption|]. replace (2 * u * (IZR t + / IZR n) * IZR n) with (2 * u * (IZR t * IZR n + IZR n * / IZR n)) by ring.
+      rewrite Hn1. rewrite Rmult_comm with (r1 := / IZR n), Hn1. exact Hsmall. }
+    lra. }
+  assert (Hsq : (1 - 2 * u) <= (1 - u) * (1 - u)) by nra.
+  assert (H2u : 0 <= 1 - 2 * u).
+  { assert (0 <= IZR t * IZR n) by (apply Rmult_le_pos; lra). nra. }
+  assert (A1 : (IZR t + / IZR n) * (1 - 2 * u) <= 100 * q * (1 - 2 * u)) by (apply Rmult_le_compat_r; assumption).
+  assert (A2 : 100 * q * (1 - 2 * u) <= 100 * q * ((1 - u) * (1 - u))) by (apply Rmult_le_compat_l; lra).
+  lra.
+Qed.
 
 Section StandardModel.
   Variable fl : R -> R.                      (* round-to-nearest binary64 *)
@@ -22,32 +60,6 @@ Section StandardModel.
     intros Hn Ht Hex Hsmall. unfold pctR.
     destruct (fl_err (IZR d / IZR n)) as (e1 & He1 & E1). rewrite E1.
     destruct (fl_err (IZR d / IZR n * (1 + e1) * 100)) as (e2 & He2 & E2). rewrite E2.
-    assert (Hn' : 0 < IZR n) by (apply IZR_lt; assumption).
-    assert (Ht' : 0 <= IZR t) by (apply IZR_le; assumption).
-    assert (Hex' : IZR t * IZR n + 1 <= 100 * IZR d).
-    { rewrite <- mult_IZR, <- plus_IZR. change 100 with (IZR 100). rewrite <- mult_IZR. apply IZR_le. lia. }
-    apply Rabs_le_both in He1. apply Rabs_le_both in He2.
-    set (q := IZR d / IZR n).
-    assert (Hq : IZR t + / IZR n <= 100 * q).
-    { unfold q. apply Rmult_le_reg_r with (IZR n); [assumption|]. field_simplify; [|lra|lra]. lra. }
-    assert (Hinv : 0 < / IZR n) by (apply Rinv_0_lt_compat; assumption).
-    assert (Hu1 : u < 1).
-    { assert (0 <= IZR t * IZR n) by (apply Rmult_le_pos; lra). nra. }
-    assert (H1 : 1 - u <= 1 + e1) by lra. assert (H2 : 1 - u <= 1 + e2) by lra.
-    assert (Hprod : (1 - u) * (1 - u) <= (1 + e1) * (1 + e2)) by (apply Rmult_le_compat; lra).
-    assert (Hq0 : 0 < 100 * q) by lra.
-    assert (Hlow : 100 * q * ((1 - u) * (1 - u)) <= q * (1 + e1) * 100 * (1 + e2)) by nra.
-    assert (Hkey : IZR t < (IZR t + / IZR n) * (1 - 2 * u)).
-    { assert (Hn1 : IZR n * / IZR n = 1) by (apply Rinv_r; lra).
-      assert (2 * u * (IZR t + / IZR n) < / IZR n).
-      { apply Rmult_lt_reg_r with (IZR n); [assumption|]. replace (2 * u * (IZR t + / IZR n) * IZR n) with (2 * u * (IZR t * IZR n + IZR n * / IZR n)) by ring.
-        rewrite Hn1. rewrite Rmult_comm with (r1 := / IZR n), Hn1. exact Hsmall. }
-      lra. }
-    assert (Hsq : (1 - 2 * u) <= (1 - u) * (1 - u)) by nra.
-    assert (H2u : 0 <= 1 - 2 * u).
-    { assert (0 <= IZR t * IZR n) by (apply Rmult_le_pos; lra). nra. }
-    assert (A1 : (IZR t + / IZR n) * (1 - 2 * u) <= 100 * q * (1 - 2 * u)) by (apply Rmult_le_compat_r; assumption).
-    assert (A2 : 100 * q * (1 - 2 * u) <= 100 * q * ((1 - u) * (1 - u))) by (apply Rmult_le_compat_l; lra).
-    lra.
+    apply (refuse_sound_core u d n t e1 e2); assumption.
   Qed.
 End StandardModel.
